@@ -15,7 +15,8 @@ def make_task(ps, P, cls, name, optional=False, release=None, due=None, deadline
         kw["release_date"] = P.int(f"{tag}_release")
     if due is not None:
         kw["due_date"] = P.int(f"{tag}_due")
-        kw["due_date_is_deadline"] = deadline
+        if deadline != "default":  # "default": the flag is left out -- documented default: the due date is a deadline
+            kw["due_date_is_deadline"] = deadline
     if cls == "FixedDurationTask":
         kw["duration"] = P.int(f"{tag}_dur")
     elif cls == "VariableDurationTask":
@@ -78,11 +79,13 @@ class TaskTiming(Contract):
             for vdt in vdts:
                 for optional in (False, True):
                     for release in (None, "int"):
-                        for due in (None, "deadline", "nodeadline"):
+                        for due in (None, "deadline", "nodeadline", "default"):
                             for horizon in (None, "int"):
                                 for nbefore in (0, 1):
                                     if nbefore == 1 and (release is None) != (due is None):
                                         continue  # keep the case count moderate
+                                    if due == "default" and (nbefore or release or horizon is None or len(vdt) > 1):
+                                        continue  # the declared default of the flag: one case per task class
                                     out.append(
                                         dict(cls=cls, vdt=vdt, optional=optional, release=release, due=due, horizon=horizon, nbefore=nbefore)
                                     )
@@ -99,7 +102,7 @@ class TaskTiming(Contract):
             optional=case["optional"],
             release=case["release"],
             due=case["due"],
-            deadline=(case["due"] != "nodeadline"),
+            deadline=("default" if case["due"] == "default" else case["due"] != "nodeadline"),
             vdt=case["vdt"],
         )
         solver = ps.SchedulingSolver(problem=pb)
@@ -118,7 +121,7 @@ class TaskTiming(Contract):
         s = spec.sched(t)
         hz = pb._horizon
         H = pb.horizon
-        timing = spec.task_timing(t, hz, H)
+        timing = spec.task_timing(t, hz, H, deadline=(case["due"] in ("deadline", "default")) if case["due"] else None)
         k = case["nbefore"] + 1
         out = []
         # --- state: the scheduled flag is an unknown exactly for optional tasks
@@ -134,6 +137,23 @@ class TaskTiming(Contract):
         out.append(
             Clause("state[task registered, task_number = position]", z3.BoolVal(pb.tasks.get("t") is t and t._task_number == k), props=("C01",), kind="state")
         )
+        # --- documented defaults of what is not declared (the meanings below read them from the task object)
+        dflt = []
+        if case["cls"] == "ZeroDurationTask":
+            dflt.append(T(t.duration) == 0)
+        if case["cls"] == "VariableDurationTask":
+            if "min" not in case["vdt"]:
+                dflt.append(T(t.min_duration) == 0)
+            if "max" not in case["vdt"]:
+                dflt.append(z3.BoolVal(t.max_duration is None))
+            if not any(x.startswith("allowed") for x in case["vdt"]):
+                dflt.append(z3.BoolVal(t.allowed_durations is None))
+        if case["release"] is None:
+            dflt.append(z3.BoolVal(t.release_date is None))
+        if case["due"] is None:
+            dflt.append(z3.BoolVal(t.due_date is None))
+        dflt.append(T(t.work_amount) == 0)
+        out.append(Clause("state[what is not declared has its documented default: no minimum, no maximum, no dates, no work amount]", And(*dflt), props=("C01", "C05"), kind="state"))
         # --- C01 soundness: every model of what initialize() asserts gives a scheduled task its timing
         out.append(Clause("sound[timing]", Implies(s, timing), hyps=A, props=("C01",), kind="sound"))
         # --- C05/C06 completeness: every documented placement of a scheduled task is admitted ...
